@@ -105,7 +105,9 @@ Resume ==
           fo == SubSeq(f.out, Min(k, Len(f.out)) + 1, Len(f.out))
           g  == Grain(rb.kind, rb.bs)
           n  == Min(RoundTo(CommonLen(rb.inp, fi), g), Min(Len(rb.out), Len(fo)))
-      IN  (Run(f) /\ ~Exact(f) /\ ~Exact(rb)) =>
+          \* the origin may have been positioned (seek / set_block_pos) BEFORE the export, not after it
+          fOk == ~f.off /\ f.status # "failed" /\ f.movedAt <= k
+      IN  (fOk /\ ~Exact(f) /\ ~Exact(rb)) =>
             /\ Pre(rb.out, n) = Pre(fo, n)
             /\ (rb.kind # "cfbbuf") =>
                  \A i \in 1..Len(rb.exps) : \A j \in 1..Len(f.exps) :
